@@ -254,8 +254,10 @@ func c06WrapExpr(w []int, hole string) string {
 // entry wins, as in the Go map the value is handed over as): c06Derive appends
 // the key "z", which a value derived from a derived value can already have.
 func c06Norm(v c06V) c06V {
-	w := c06V{k: v.k, b: v.b, i: v.i, f: v.f, s: v.s}
+	w := c06V{k: v.k, b: v.b, i: v.i, f: v.f, s: v.s, u: v.u, w: v.w}
 	switch v.k {
+	case 'P':
+		w.el = []c06V{c06Norm(v.el[0])}
 	case 'L':
 		w.el = make([]c06V, len(v.el))
 		for j := range v.el {
